@@ -67,7 +67,7 @@ Fixpoint replay (tbl : bool) (s : res gstate) (ups : list upd) : list (res gstat
   | [] => []
   | u :: r =>
       let s' := do st <- s; do bs <- up_blocks u;
-                update_state_v tbl st (key_from_file_name (up_name u)) (up_meta u) bs in
+                update_state_v tbl st (key_name (up_name u)) (up_meta u) bs in
       (s', u) :: replay tbl s' r
   end.
 
